@@ -1,14 +1,55 @@
 (* C13 — Unsatisfiable or invalid requests are reported as errors, never panics.
-   Linear half: in every reachable state no admissible operation panics — requests with ANY size
-   (zero, negative, larger than the block), any power-of-two alignment, any allocation type
-   (including 0), upper or lower address, any strategy and offset bound; frees and user-data
-   updates of live handles; Clear; MayHaveFreeBlock — and every operation that does not succeed
-   leaves the whole state exactly as it was (equality of states, not only of observables). *)
-From Coq Require Import ZArith List Lia.
-From Arsenal Require Import Util Bits Gran.
-From Arsenal Require Import Linear LinearInv LinearAlloc LinearFree LinearStep LinearSwap LinearVisit LinearProps.
+   TLSF half: in every reachable state (block size 1 <= size < 2^39) no operation panics —
+   requests with ANY size (<= 0, > block), any power-of-two alignment, any type, any strategy
+   bits, upper address, any offset bound; Free / SetUserData with ANY handle (a handle that is not
+   live yields an error and the identical state) — a granted request always commits, and every
+   refused or failed operation returns the identical state (equality of whole states).
+   Linear half: the same for every admissible operation in every reachable linear state. *)
+From Coq Require Import ZArith NArith List Lia.
+From Arsenal Require Import Util Bits Gran Tlsf TlsfStep TlsfProps SizeClass TlsfInv2 TlsfStep2 TlsfProps2 GranInv GranTlsf.
+From Arsenal Require Linear LinearInv LinearAlloc LinearFree LinearStep LinearSwap LinearVisit LinearProps.
 Import ListNotations.
 Open Scope Z_scope.
+
+Theorem C13_tlsf_no_panic : forall h gr size ops,
+  cfg2_ok gr size -> Forall op_ok ops ->
+  let t := run (tlsf_init h gr size) ops in
+  forall o, op_ok o -> o_kind (snd (step t o)) <> RPanic.
+Proof. exact tlsf_reach_no_panic. Qed.
+Print Assumptions C13_tlsf_no_panic.
+
+Theorem C13_tlsf_refused_noop : forall t o,
+  (o_kind (snd (step t o)) = RRefused \/ o_kind (snd (step t o)) = RError) -> fst (step t o) = t.
+Proof. exact tlsf_refused_noop. Qed.
+Print Assumptions C13_tlsf_refused_noop.
+
+Theorem C13_tlsf_granted_request_commits : forall h gr size ops,
+  cfg2_ok gr size -> Forall op_ok ops ->
+  let t := run (tlsf_init h gr size) ops in
+  forall sz align atype strat upper mo tag t1 r,
+    pow2 align -> create_request t sz align upper atype strat mo = QGranted t1 r ->
+    exists t2 hd, step t (OAlloc sz align atype strat upper mo tag) = (t2, mkOut ROk hd (rq_size r)).
+Proof. exact tlsf_reach_alloc_no_error. Qed.
+Print Assumptions C13_tlsf_granted_request_commits.
+
+Theorem C13_tlsf_bad_handle_is_error : forall h gr size ops,
+  cfg2_ok gr size -> Forall op_ok ops ->
+  let t := run (tlsf_init h gr size) ops in
+  forall hd, (forall a, In a (live t) -> b_off a <> hd) ->
+    step t (OFree hd) = (t, out RError) /\ forall tag, step t (OSetUD hd tag) = (t, out RError).
+Proof. exact tlsf_reach_bad_handle. Qed.
+Print Assumptions C13_tlsf_bad_handle_is_error.
+
+(* non-vacuity (TLSF): the hypotheses are met by a concrete history ending with three live blocks *)
+Example C13_tlsf_nonvacuous :
+  cfg2_ok 1024 4096 /\ Forall op_ok ex_ops /\ length (live (run (tlsf_init HVam 1024 4096) ex_ops)) = 3%nat.
+Proof.
+  split; [split; [lia|exists 10; split; [lia|reflexivity]]|]. exact (conj ex_ops_ok ex_live_three).
+Qed.
+
+Module LinearHalf.
+Import Linear LinearInv LinearAlloc LinearFree LinearStep LinearSwap LinearVisit LinearProps.
+Import ListNotations.
 
 Theorem C13_linear_no_panic : forall h gr size l o,
   lcfg_ok gr size -> lreach h gr size l -> LinearStep.op_ok l o -> Linear.o_kind (snd (Linear.step l o)) <> RPanic.
@@ -29,3 +70,5 @@ Proof.
   split; [exists LinearStep.ex_ops; split; [exact (proj1 LinearStep.ex_ops_ok)|reflexivity]|].
   exact (proj1 (proj2 LinearStep.ex_ops_ok)).
 Qed.
+
+End LinearHalf.
